@@ -397,12 +397,14 @@ std::vector<std::string> Cells(int tier) {
       }
     }
   }
-  if (tier > 0) {
-    for (const char* pol : {"LastFail", "FirstFail", "None"}) {
-      for (const char* form : {"static", "dynamic", "shared-dynamic"}) {
-        for (const char* pat : {"VVV", "EVV", "VEX", "EEV", "XEE", "EEE", "EXV"}) {
-          cells.push_back(std::string{"form="} + form + ",pol=" + pol + ",n=3,pat=" + pat + ",keep=0");
+  // three inputs: every success / failure pattern (a failure racing with two values, two failures with one value, ...)
+  for (const char* pol : {"LastFail", "FirstFail", "None"}) {
+    for (const char* form : {"static", "dynamic", "shared-dynamic"}) {
+      for (const char* pat : {"VVV", "EVV", "VEV", "VVE", "EEV", "EVE", "VEE", "EEE", "XVV", "VEX", "EXV", "XEE"}) {
+        if (tier == 0 && std::string{form} == "shared-dynamic" && std::string{pat}.find('X') != std::string::npos) {
+          continue;
         }
+        cells.push_back(std::string{"form="} + form + ",pol=" + pol + ",n=3,pat=" + pat + ",keep=0");
       }
     }
   }
@@ -413,11 +415,11 @@ bool CellBounds(const vx::Cell& cell, int tier, vx::Bounds& b) {
   const int n = cell.Int("n", 2);
   const bool shared = cell.Str("form").find("shared") != std::string::npos;
   if (n == 3) {
-    b.P = 2;
+    b.P = tier == 0 ? 2 : 3;
   } else {
     b.P = tier == 0 ? 2 : 3;
   }
-  b.S = shared ? 1 : 0;
+  b.S = 1;
   b.T = 0;
   return true;
 }
